@@ -165,7 +165,7 @@ fn grid1(en: &Entry) -> Vec<String> {
             "0", "0.1", "0.25", "0.5", "0.75", "1", "1.5", "2", "2.5", "3", "3.5", "4.75", "7", "10", "25", "100.5", "700", "1000000", "0.001", "0.000001", "(-0.1)", "(-0.25)", "(-0.5)", "(-0.75)", "(-1)", "(-1.5)", "(-2.5)", "(-3)", "(-3.5)",
             "(-7.5)", "(-20.25)", "(-150.5)", "150.5", "20", "21", "22", "23", "27", "28", "100", "170", "171", "12.75", "(-12.25)", "0.9", "(-0.9)", "1.05", "0.99", "(-0.99)", "2.4", "2.6", "(-2.4)", "(-2.6)", "4.5", "(-4.5)", "5", "6", "18",
             "2.718281828", "3.14159265", "1.4422495703074083", "1.44222", "1.4446678610097661", "0.36787944117144233", "(1+1+1+1+1+1+1+1+1+1+1+1+1+1+1+1+1+1+1+1+1+1+1+1+1+1+1+1+1+1+1+1+1+1+1+1+1+1+1+1+1+1+1+1+1+1+1+1+1+1+1+1+1+1+1+1+1+1+1+1+1+1+1+1+1+1+1+1+1+1+1+1+1+1+1+1+1+1+1+1+1+1+1+1+1+1+1+1+1+1+1+1+1+1+1+1+1+1+1+1+1+1+1+1+1+1+1+1+1+1+1+1+1+1+1+1+1+1+1+1+1)",
-            "0.3678", "(-0.3678)", "(-0.36)", "(-0.2)", "50", "1000", "0.0001", "0.0", "1.0", "2.0", "3.0", "4.0", "5.0", "10.0", "20.0", "21.0", "(-1.0)", "(-3.0)", "170.0",
+            "0.3678", "(-0.3678)", "(-0.36)", "(-0.2)", "50", "1000", "0.0001", "0.0", "(-0)", "(-0.0)", "1.0", "2.0", "3.0", "4.0", "5.0", "10.0", "20.0", "21.0", "(-1.0)", "(-3.0)", "170.0",
         ]
     };
     general.into_iter().map(|s| s.to_string()).collect()
@@ -447,7 +447,8 @@ impl Prop for C10Prop {
             }
             (Ev::Dec, Outcome::Err) => {
                 // out of the Decimal range (or of the library's exp/ln range): "defined and representable" fails
-                if want.is_finite() && want.abs() < 1e27 && want.abs() > 1e-26 && !(en.canon == "fact" && args[0] > 27.0) && args.iter().all(|a| a.abs() < 1e27) {
+                // (a zero result at zero arguments is representable; other zeros of the f64 reference may be underflow)
+                if want.is_finite() && want.abs() < 1e27 && (want.abs() > 1e-26 || (want == 0.0 && args.iter().all(|a| *a == 0.0))) && !(en.canon == "fact" && args[0] > 27.0) && args.iter().all(|a| a.abs() < 1e27) {
                     // well inside the range: an Err is wrong, unless an intermediate (ln of the base, exp) legitimately overflows
                     let intermediate_big = matches!(en.canon, "pow" | "root" | "exp" | "exp2" | "fact") && (want.abs() > 1e25 || (en.canon == "fact" && args[0].fract() != 0.0 && args[0] > 25.0));
                     if intermediate_big {
